@@ -59,6 +59,10 @@ func c05Materialize(wd string, nodes map[int]map[string]interface{}, files map[i
 		case ext == -2:
 			svc["extends"] = map[string]interface{}{"service": "x", "file": "./missing-file.yaml"}
 		}
+		if asBool(nd["isnull"]) && len(svc) == 0 {
+			byFile[f][asStr(nd["name"])] = nil // declared without any content
+			continue
+		}
 		byFile[f][asStr(nd["name"])] = svc
 	}
 	// a service every chain member may depend on, whichever files the chain runs through
